@@ -1,5 +1,5 @@
 SPECIFICATION Spec
-CONSTANT N = 300
+CONSTANT N = 600
 CONSTANT Deep = FALSE
 INVARIANT Laws
 CHECK_DEADLOCK FALSE
